@@ -127,18 +127,36 @@ Qed.
 
 Lemma opByte_ok : comp_correct globals body_opByte (F2 spec_byte).
 Proof.
-  start2. unfold body_opByte. run_sym. all: norm; finish; norm; unfold spec_byte.
-  1,2: assert (Hs : 0 <= h la < 32) by (unfold inrange in *; lia);
-       pose proof tt63_big as H63; pose proof tt64_big as H64;
-       rewrite int64_of_small, wrap_i64_small by lia;
-       rewrite byte_of_spec by (unfold inrange in *; lia);
-       pose proof (land_255_range (Z.shiftr (h lb) (8 * (31 - h la)))) as Hb;
-       rewrite !(wrap_u64_small (Z.land _ _)) by lia.
-  - apply small_inrange. lia.
-  - replace (h la <? 32) with true by lia. reflexivity.
+  start2. unfold body_opByte. run_sym. all: norm.
+  (* where the index is looked at it is below 32: the machine-integer wrappers vanish *)
+  all: try (assert (Hs : 0 <= h la < 32) by (unfold inrange in *; lia);
+            pose proof tt63_big as H63; pose proof tt64_big as H64;
+            rewrite ?(int64_of_small (h la)) in * by lia;
+            rewrite ?(wrap_i64_small (h la)) in * by lia;
+            change (32 - 1) with 31 in *;
+            rewrite ?(wrap_i64_small 31) in * by lia;
+            rewrite ?(wrap_i64_small (31 - h la)) in * by lia;
+            assert (Hq : 0 <= (31 - h la) ÷ 8 < 4 /\ 0 <= Z.rem (31 - h la) 8 < 8)
+              by (rewrite Z.quot_div_nonneg, Z.rem_mod_nonneg by lia; Z.div_mod_to_equations; lia);
+            rewrite ?(wrap_i64_small ((31 - h la) ÷ 8)) in * by lia;
+            rewrite ?(wrap_i64_small (Z.rem (31 - h la) 8)) in * by lia;
+            rewrite ?(wrap_u64_small (Z.rem (31 - h la) 8)) in * by lia;
+            rewrite ?(wrap_u64_small (8 * Z.rem (31 - h la) 8)) in * by lia).
+  all: try (exfalso; pose proof (bits_len_nonneg (h lb)); lia).
+  all: finish; norm; unfold spec_byte.
+  - change (wrap_u8 0) with 0. rewrite !wrap_u64_0. apply inrange_0.
+  - change (wrap_u8 0) with 0. rewrite !wrap_u64_0. replace (h la <? 32) with true by lia.
+    symmetry. apply byte_beyond_words; unfold inrange in *; lia.
+  - rewrite word_at_byte by (unfold inrange in *; lia).
+    pose proof (land_255_range (Z.shiftr (h lb) (8 * (31 - h la)))) as Hb.
+    rewrite !(wrap_u64_small (Z.land _ _)) by lia. apply small_inrange. lia.
+  - rewrite word_at_byte by (unfold inrange in *; lia).
+    pose proof (land_255_range (Z.shiftr (h lb) (8 * (31 - h la)))) as Hb.
+    rewrite !(wrap_u64_small (Z.land _ _)) by lia. replace (h la <? 32) with true by lia. reflexivity.
   - apply inrange_0.
   - replace (h la <? 32) with false by lia. reflexivity.
 Qed.
+
 
 Lemma opSHL_ok : comp_correct globals body_opSHL (F2 spec_shl).
 Proof.
